@@ -1,7 +1,7 @@
 ----------------------------- MODULE MC_WmmSession -----------------------------
 EXTENDS WmmSession
 D3 == {"d2017", "d2022", "d2027"}
-P6 == {"munich", "lat0", "lon0", "northpole", "southpole", "lon180", "munich400"}     \* munich400: munich's latitude and longitude at another height
+P6 == {"munich", "lat0", "lon0", "northpole", "southpole", "lon180", "munich400", "below"}     \* munich400: munich's latitude and longitude at another height
 F2 == {"NED", "ENU"}
 NoDev == {}
 AsBuilt == {"ctor_skips_zero_lat_lon", "rescale_on_date_none"}
